@@ -3150,7 +3150,8 @@ class EntityFixup(MutableMapping[str, str]):
         for fix in fixup:
             if fix.id > 0 and fix.id not in used_indexes:
                 used_indexes.add(fix.id)
-                self._fixup[intern(fix.var.casefold())] = fix
+                # Copy, so mutating our values doesn't alter whoever supplied these.
+                self._fixup[intern(fix.var.casefold())] = FixupValue(fix.var, fix.value, fix.id)
             else:
                 extra_vals.append(fix)
         for fix in extra_vals:
@@ -3183,13 +3184,13 @@ class EntityFixup(MutableMapping[str, str]):
     def __copy__(self) -> 'EntityFixup':
         fix = EntityFixup.__new__(EntityFixup)
         fix._matcher = self._matcher
-        fix._fixup = self._fixup.copy()
+        fix._fixup = {key: FixupValue(val.var, val.value, val.id) for key, val in self._fixup.items()}
         return fix
 
     def __deepcopy__(self, memodict: Optional[dict[int, Any]] = None) -> 'EntityFixup':
         fix = EntityFixup.__new__(EntityFixup)
         fix._matcher = self._matcher
-        fix._fixup = self._fixup.copy()
+        fix._fixup = {key: FixupValue(val.var, val.value, val.id) for key, val in self._fixup.items()}
         return fix
 
     def __getstate__(self) -> list[FixupValue]:
